@@ -455,6 +455,28 @@ func c02Append(c *Ctx) {
 			r.Undecided("C02.5", key, c.pos(s0), "field "+name+" has a kind this rule has no combination law for")
 		}
 	}
+	// the receiver owns its storage: the embedded pointer is only ever set to an
+	// object allocated here, never to the argument's (cached) object
+	wrapperT := c.U.NamedType("cdi", "ContainerEdits")
+	ir.Instrs(fn, func(in ssa.Instruction) {
+		s, ok := in.(*ssa.Store)
+		if !ok {
+			return
+		}
+		fa, ok := s.Addr.(*ssa.FieldAddr)
+		if !ok || wrapperT == nil || !ir.TypeIs(fa.X.Type(), "cdi", "ContainerEdits") {
+			return
+		}
+		fresh := true
+		var ds []string
+		for _, p := range c.U.PathsOf(s.Val) {
+			ds = append(ds, p.String())
+			if a, isAlloc := p.Root.(*ssa.Alloc); !isAlloc || a.Parent() != fn || len(p.Sels) != 0 {
+				fresh = false
+			}
+		}
+		r.Check("C02.5", "receiver-owns-storage", fresh, c.pos(s), "the receiver's edits object is one allocated by Append itself (found "+strings.Join(ds, ",")+"): adopting the argument's object would make later Appends write into it")
+	})
 	// guards: nil other returns the receiver unchanged
 	for _, ret := range ir.NormalReturns(fn) {
 		rv := ir.ReturnResult(ret, 0)
